@@ -221,7 +221,8 @@ func checkC13(c *ctx) {
 		mode string
 		auto bool
 	}
-	cfgs := []cfg{{"base", false}, {"source-map", false}, {"base", true}, {"source-map", true}}
+	// the fifth configuration processes many packages per invocation (./g/..., ./s/...)
+	cfgs := []cfg{{"base", false}, {"source-map", false}, {"base", true}, {"source-map", true}, {"base", false}}
 	evals, nontrivial := 0, 0
 	distinct := map[string]bool{}
 	var samples []interface{}
@@ -285,10 +286,26 @@ func checkC13(c *ctx) {
 		if len(badInput) > 0 && firstBadInput == "" {
 			firstBadInput = firstLines(vetOut, 4)
 		}
+		together := ci == 4
+		if together {
+			// hazards have their own expected failures: one process each, as before
+			group := map[string]toolRun{}
+			for _, sub := range []string{"g", "s"} {
+				group[sub] = runTool(dir, cff, "-genmode", cf.mode, "./"+sub+"/...")
+			}
+			for _, p := range pkgs {
+				if p.Kind != "hazard" && !badInput[p.Rel] {
+					p.run = group[p.Rel[:1]]
+				}
+			}
+		}
 		parallel(len(pkgs), func(i int) {
 			p := pkgs[i]
 			if badInput[p.Rel] {
 				p.inputBad = true
+				return
+			}
+			if together && p.Kind != "hazard" {
 				return
 			}
 			args := []string{"-genmode", cf.mode}
@@ -353,6 +370,13 @@ func checkC13(c *ctx) {
 			for _, fn := range p.Files {
 				gp := filepath.Join(dir, p.Rel, genName(fn))
 				if _, err := os.Stat(gp); err != nil {
+					if p.Kind != "hazard" {
+						// every file of the corpus and static packages holds a directive
+						obs["compile_err"] = "no output written"
+						c.R.Add(vc.Violation{Property: "C13", Case: caseName, Why: "cff exited 0 but wrote no output for " + fn + ", which contains directives: without the cff tag the package lacks that file's declarations (it cannot be built)", Obs: obs, Witness: wit()})
+						bad = true
+						break
+					}
 					continue // a file without directives has no output
 				}
 				res, err := residualDirectives(gp, dirs)
@@ -391,7 +415,7 @@ func checkC13(c *ctx) {
 		"evaluations":         evals,
 		"distinct_nontrivial": len(distinct),
 		"rule": "Engine T: input packages = Engine G corpus programs (all spellings and value-type kinds), static multi-directive files with arbitrary surrounding code (also *_test.go), and hazard templates (aliased/colliding imports of time, context, cff, runtime/debug; user identifiers named like generated ones; identifiers shadowing packages the generated code uses; types from unimported packages; unexported foreign types; nested directives; parenthesised and non-constant option arguments; unsupported signatures), " +
-			"each run through the cff binary built from the working tree in base/source-map x with/without -auto-instrument, one process per package. Oracle: no Go panic; non-zero exit needs a positioned diagnostic; exit 0 needs every output to parse, the package to type-check without the cff tag (go vet), and no call into the directive set (read from /repo/internal/directives.go) left in the output. distinct = (kind, feature set, mode); every case is non-trivial (a directive is present)",
+			"each run through the cff binary built from the working tree in base/source-map x with/without -auto-instrument, one process per package, and once more with many packages per invocation (./g/..., ./s/...). Oracle: no Go panic; non-zero exit needs a positioned diagnostic; exit 0 needs every output to parse, the package to type-check without the cff tag (go vet), and no call into the directive set (read from /repo/internal/directives.go) left in the output. distinct = (kind, feature set, mode); every case is non-trivial (a directive is present)",
 		"samples":                           samples,
 		"packages_by_kind":                  feats,
 		"outcomes":                          outcomes,
